@@ -754,7 +754,19 @@ def declared_types_known(F, rep):
             for a in m["arms"]:
                 for alt in pat_alternatives(a["pat"]):
                     if (pat_variant(alt) or "").endswith("ty::Type::Unknown") and not tc.is_err_value(a["body"]):
-                        quiet = a
+                        # .. unless what it answers is the declaration's *own* node (`self.variables[var].ty`, not a copy of it):
+                        # then the mention learns what the declaration turns out to be - a type that mentions itself
+                        fl_ = Flow(firt, fn_body(firt))
+                        own = False
+                        for r_ in [x for x in nodes(a["body"]) if x.get("k") == "Ret"] + [a["body"]]:
+                            v_ = peel(r_.get("e") if r_.get("k") == "Ret" else r_)
+                            if isinstance(v_, dict) and v_.get("k") == "Call" and (callee(v_) or "").endswith("Result::Ok") and v_["args"]:
+                                v_ = peel(v_["args"][0])
+                            d_ = tc.describe(fl_, v_) if isinstance(v_, dict) else ""
+                            if d_.startswith("varty:"):
+                                own = True
+                        if not own:
+                            quiet = a
     rep.ob("USERTYPE", "inner_resolve_type|UserType|declaration-still-unknown", quiet is None,
            "an annotation naming a declaration that has not been checked yet is not silently accepted" if quiet is None else
            "inner_resolve_type's UserType arm accepts a named declaration whose type is still Unknown and returns a fresh "
